@@ -18,7 +18,7 @@ func TestMain(m *testing.M) {
 // replayTries: the queue's Next blocks in a select; which ready case it takes
 // is chosen by the Go runtime, not by the scenario. A replay therefore runs
 // the scenario repeatedly and fails if any run fails.
-const replayTries = 64
+var replayTries = flag.Int("c11.replaytries", 64, "how many times TestReplay runs the scenario (fails if any run fails)")
 
 // shrinkTries: how often a shrink candidate is run before it counts as passing
 // (only after the first failure of a rapid run; the search itself runs every
@@ -56,9 +56,9 @@ func replayOne(t *testing.T, rf *vstat.ReplayFile) string {
 		if err := json.Unmarshal(rf.Scenario, &sc); err != nil {
 			return "bad scenario: " + err.Error()
 		}
-		for i := 0; i < replayTries; i++ {
+		for i := 0; i < *replayTries; i++ {
 			if _, err := runSeq(t, &sc); err != nil {
-				return err.Error()
+				return fmt.Sprintf("(run %d of %d) %v", i+1, *replayTries, err)
 			}
 		}
 		return ""
@@ -67,9 +67,9 @@ func replayOne(t *testing.T, rf *vstat.ReplayFile) string {
 		if err := json.Unmarshal(rf.Scenario, &sc); err != nil {
 			return "bad scenario: " + err.Error()
 		}
-		for i := 0; i < replayTries; i++ {
+		for i := 0; i < *replayTries; i++ {
 			if _, err := runConc(t, &sc); err != nil {
-				return err.Error()
+				return fmt.Sprintf("(run %d of %d) %v", i+1, *replayTries, err)
 			}
 		}
 		return ""
